@@ -871,7 +871,7 @@ def _sort_model(cx, port, p, mod, c):
             for reverse in (False, True):
                 for refuse_second, extra in itertools.product((False, True), extra_sets):
                     selfv, sub = AX.Abs('Self'), AX.Abs('Sub')
-                    recs = [['rec', 'r%d' % i] for i in range(len(keys))]          # records: distinct list objects
+                    recs = [['rec', 'r%d' % (9 - i)] for i in range(len(keys))]    # records: distinct list objects whose texts run against arrival order
                     if keys == [5, 5]:
                         recs = [['rec', 'same'], ['rec', 'same']]                  # ... two of them with the same content
                     forwarded, events = [], []
